@@ -142,3 +142,22 @@ theorem halfCheck_all (h : Nat) (hh : h < 65536) : halfCheck h = true := by
   rwa [e] at this
 
 end Lemmas
+
+namespace Lemmas
+/-- the hand-written bit-level model of `_cbor_decode_half` is the Spec's binary16 → binary32 conversion -/
+theorem decodeHalf_spec (h : Nat) (hh : h < 65536) : (Ext.decodeHalfBits h).toNat = Spec.halfToSingle h := by
+  have := halfCheck_all h hh
+  unfold halfCheck at this
+  rw [strict_eq] at this
+  simp only [Bool.and_eq_true] at this
+  exact eq_of_beq this.1.1.1
+
+/-- the Spec's binary32 → binary16 conversion inverts it (canonical NaN) -/
+theorem singleToHalf_decode (h : Nat) (hh : h < 65536) :
+    Spec.Float.singleToHalf (Ext.decodeHalfBits h).toNat = Spec.Float.canonHalf h := by
+  have := halfCheck_all h hh
+  unfold halfCheck at this
+  rw [strict_eq] at this
+  simp only [Bool.and_eq_true] at this
+  exact eq_of_beq this.1.1.2
+end Lemmas
